@@ -327,6 +327,48 @@ def h_threads(ctx, script, nmsgs, bound):
   ctx.witness('done')
 
 
+def h_shutdown(ctx, sizes, script):
+  """switch side, "send what is queued, then close" (IOWorker.shutdown(), used by OFConnection.close()): messages larger than the I/O loop's
+  buffer size are queued, shutdown() is requested, the loop flushes with the scripted socket outcomes.  Every queued byte reaches the socket,
+  in order, before the sending direction is shut down - which happens exactly once, and nothing is written afterwards."""
+  core = env.get_core()
+  iow = ctx.pox('pox.lib.ioworker')
+  class S(ScriptSock):
+    def __init__(self, script): ScriptSock.__init__(self, script); self.shut_at = []; self.after_shut = 0
+    def send(self, data, flags=0):
+      if self.shut_at: self.after_shut += 1
+      o = self.script.pop(0) if self.script else 'all'
+      self.calls += 1
+      if o == 'again': raise OSError(errno.EAGAIN, 'would block')
+      k = len(data) if o == 'all' else min(int(o), len(data))
+      self.accepted.append(data[:k])          # (kept symbolic)
+      return k
+    def shutdown(self, how=None): self.shut_at.append(sum(len(x) for x in self.accepted))
+  sock = S(script)
+  w = iow.RecocoIOWorker(sock)
+  w.pinger = env.DummyPinger()
+  closes = []
+  w.on_close = lambda worker: closes.append(worker)
+  class Loop: _BUF_SIZE = 8192
+  loop = Loop(); loop._workers = {w}
+  queued = []
+  for i, n in enumerate(sizes):
+    e = ctx.bytes('edge%d' % i, 4)
+    m = env.tobytes(ctx, list(e[:2]) + [(k * 11 + i) & 0xff for k in range(n - 4)] + list(e[2:]))
+    queued.append(m); w.send(m)
+  w.shutdown()
+  total = sum(sizes)
+  for _ in range(len(script) + total // 1000 + 6):
+    if not w.closed and w._ready_to_send: w._do_send(loop)
+  got = [x for part in sock.accepted for x in list(part)]; exp = [x for m in queued for x in list(m)]
+  ctx.check('every queued byte was written', len(got) == len(exp))
+  if len(got) == len(exp): ctx.check('in order', ctx.Eq(env.tobytes(ctx, got), env.tobytes(ctx, exp)))
+  ctx.check('the sending direction is shut down exactly once, after the last queued byte', sock.shut_at == [total])
+  ctx.check('nothing is written after the shutdown', sock.after_shut == 0)
+  ctx.check('the peer never failed: the worker is not reported closed', not closes)
+  ctx.witness('done')
+
+
 def obligations(tier):
   thorough = tier != 'quick'
   cplans = ['ssf', 'sfs', 'sffs', 'ssfsf'] + (['sssff', 'sfsfsf', 'ssffs'] if thorough else [])
@@ -337,7 +379,11 @@ def obligations(tier):
   scripts = [[5], ['again'], [5, 2], [5, 'again', 3], [3, 'all', 4]]
   tcases = [dict(script=sc, nmsgs=3, bound=(2 if thorough else 1)) for sc in scripts] + ([dict(script=[5], nmsgs=4, bound=2)] if thorough else [])
   BOUNDS[tier]['threads'] = dict(socket_scripts=scripts, messages=3, preemptions=2 if thorough else 1, granularity='source statements of Connection.send / DeferredSender.send/run/_sliceup/kill')
+  sh = [dict(sizes=[9000], script=[]), dict(sizes=[8192], script=[]), dict(sizes=[5000, 5000, 5024], script=[]), dict(sizes=[20000], script=[8192, 'again', 8192]),
+        dict(sizes=[9000], script=[3000, 'again', 100]), dict(sizes=[36], script=[])]
   return [
+    Obligation('O5_shutdown', h_shutdown, sh, witnesses=('done',), max_decisions=20000,
+               desc='IOWorker.shutdown() with more than one I/O-buffer of data queued: everything is written before the socket is shut down, once'),
     Obligation('O3_threads', h_threads, tcases, witnesses=('done', 'bound-reached'), max_decisions=20000, mode='int', path_seconds=120,
                desc='Connection.send (cooperative thread) against the real DeferredSender.run loop (its own thread), interleaved at statement granularity: stream preserved'),
     Obligation('O4_two_connections', h_two, [dict(plan=p, ncalls=3) for p in (['abfb', 'abfab', 'bafa'] + (['abffba', 'aabfb'] if thorough else []))], witnesses=('clean',),
